@@ -42,14 +42,16 @@ Commit(b, n) ==       \* the user wrote min(n, free) fresh bytes at writableBegi
   LET k == Min(n, free[b]) IN
   /\ alive[b] /\ q' = Upd(q, b, RCat(q[b], Run(pos, k))) /\ pos' = pos + k
   /\ free' = Upd(free, b, free[b] - k) /\ UNCHANGED alive /\ ret' = <<"commit", k>>
+\* The reader-side operations (fetch, hasRead, hasReadAll) never take writable space away: a reservation made with
+\* ensureWritableSize() is still there when the writer fills and commits it, whatever was read in between.
 Fetch(b, n, f) ==     \* fetch(buf, n): the first min(n, size) bytes, removed
-  /\ alive[b] /\ ret' = <<"fetch", RTake(q[b], n)>> /\ q' = Upd(q, b, RDrop(q[b], n))
+  /\ alive[b] /\ f >= free[b] /\ ret' = <<"fetch", RTake(q[b], n)>> /\ q' = Upd(q, b, RDrop(q[b], n))
   /\ free' = Upd(free, b, f) /\ UNCHANGED <<alive, pos>>
 Consume(b, n, f) ==   \* hasRead(n): drops n bytes; more than there is drops all
-  /\ alive[b] /\ q' = Upd(q, b, RDrop(q[b], n)) /\ free' = Upd(free, b, f)
+  /\ alive[b] /\ f >= free[b] /\ q' = Upd(q, b, RDrop(q[b], n)) /\ free' = Upd(free, b, f)
   /\ UNCHANGED <<alive, pos>> /\ ret' = <<"consume">>
 ConsumeAll(b, f) ==
-  /\ alive[b] /\ q' = Upd(q, b, <<>>) /\ free' = Upd(free, b, f) /\ UNCHANGED <<alive, pos>> /\ ret' = <<"consumeall">>
+  /\ alive[b] /\ f >= free[b] /\ q' = Upd(q, b, <<>>) /\ free' = Upd(free, b, f) /\ UNCHANGED <<alive, pos>> /\ ret' = <<"consumeall">>
 Shrink(b, f) ==       \* contents unchanged
   /\ alive[b] /\ free' = Upd(free, b, f) /\ UNCHANGED <<q, alive, pos>> /\ ret' = <<"shrink">>
 Reset(b, f) ==
